@@ -356,7 +356,7 @@ def run(ctx):
 
     # ------------------------------------------------------------ operators
     ops = []
-    nrand = 700 if ctx.thorough else 130
+    nrand = 500 if ctx.thorough else 130
     for _ in range(nrand):
         L = rng.choice([1, 2, 2, 3, 3, 3, 4, 4, 5])
         ops.append((L, rand_terms(rng, L, budget=700 if L < 5 or ctx.thorough else 130)))
